@@ -18,7 +18,8 @@ changes nothing.
 
 Scope.  Exhaustive:
   * undirected, order 3: all 2048 hypergraphs on nodes 0..3 (every subset of the 11 hyperedges of size >= 2), each
-    also under all 24 relabellings and 2 (quick) / 10 (thorough) insertion orders; the same 2048 with one (quick) / every
+    also under all 24 relabellings (quick: under the three adjacent transpositions, which generate S4 - on a complete
+    space closed under relabelling that implies all 24) and 2 (quick) / 10 (thorough) insertion orders; the same 2048 with one (quick) / every
     (thorough: 16) subset of the four singleton hyperedges added; all hypergraphs on nodes 0..4 with hyperedges of
     size 2..3 and at most 4 (quick) / 7 (thorough) hyperedges.
   * undirected, order 4: all hypergraphs on nodes 0..3 with at most 3 hyperedges (quick) / all 2048 (thorough);
@@ -39,9 +40,9 @@ added to an existing hypergraph.  Budgets are counts, quick / thorough:
   order 3 and directed (a call costs < 1 ms): 300 / 4000 undirected and 200 / 3000 directed random hypergraphs, each
     with ALL of the variants above (directed ones for both orders);
   order 4 undirected (a call costs ~0.45 s because the implementation rebuilds its 171-class table three times per
-    call; ~520 / ~9300 calls in total): census of 60 / 1500 random hypergraphs; all 119 non-identity permutations of
-    1 / 6 random 5-node hypergraphs and 10 / 30 random permutations of 4 / 40 on 6..7 nodes; 10 insertion orders of
-    4 / 80; larger hyperedges added to 6 / 100.
+    call; ~480 / ~9300 calls in total): census of 40 / 1500 random hypergraphs; all 119 non-identity permutations of
+    1 / 6 random 5-node hypergraphs and 10 / 30 random permutations of 3 / 40 on 6..7 nodes; 10 insertion orders of
+    3 / 80; larger hyperedges added to 6 / 100.
 A few degenerate inputs (empty, isolated nodes only, singleton hyperedges only, fewer nodes than the order) are run for
 both functions and both orders.
 
@@ -637,8 +638,8 @@ def _random_u(rng, nmin=3, nmax=7):
     return dict(edges=edges, isolated=isolated, weighted=rng.random() < 0.25)
 
 
-def _larger_u(rng, order, nodes, howmany):
-    """hyperedges of size > order (<= 6) over the existing nodes plus up to two new ones"""
+def _larger_u(rng, order, nodes, howmany, present=()):
+    """hyperedges of size > order (<= 6), not yet present, over the existing nodes plus up to two new ones"""
     pool = sorted(nodes)
     fresh = [v for v in range(100, 110) if v not in nodes]
     pool = pool + fresh[:max(0, order + 1 - len(pool)) + rng.randint(0, 2)]
@@ -646,6 +647,7 @@ def _larger_u(rng, order, nodes, howmany):
     for _ in range(howmany):
         s = rng.randint(order + 1, min(6, len(pool)))
         out.add(frozenset(rng.sample(pool, s)))
+    out -= {frozenset(e) for e in present}
     return [sorted(e) for e in sorted(out, key=sorted)]
 
 
@@ -668,7 +670,7 @@ def _random_d(rng, nmin=3, nmax=7):
     return dict(edges=edges, isolated=isolated)
 
 
-def _larger_d(rng, order, nodes, howmany):
+def _larger_d(rng, order, nodes, howmany, present=()):
     pool = sorted(nodes)
     fresh = [v for v in range(100, 110) if v not in nodes]
     pool = pool + fresh[:max(0, order + 1 - len(pool)) + rng.randint(0, 2)]
@@ -678,6 +680,7 @@ def _larger_d(rng, order, nodes, howmany):
         vs = rng.sample(pool, s)
         cut = rng.randint(1, s - 1)
         out.add((tuple(sorted(vs[:cut])), tuple(sorted(vs[cut:]))))
+    out -= {(tuple(sorted(s)), tuple(sorted(t))) for s, t in present}
     return [[list(s), list(t)] for s, t in sorted(out)]
 
 
@@ -736,7 +739,7 @@ def _work(task):
     if kind == "xu":
         # exhaustive batch, undirected: index sets into `possible`; variants made here deterministically
         possible, order, n = task["possible"], task["order"], task["n"]
-        maps = _all_maps(range(n)) if task["all_maps"] else []
+        maps = {"all": _all_maps, "gen": _generator_maps, "none": lambda nodes: []}[task["maps"]](range(n))
         for idx in task["subsets"]:
             edges = [possible[i] for i in idx]
             rng = random.Random(f"C11:{task['seed']}:xu:{order}:{n}:{sorted(idx)}")
@@ -778,10 +781,10 @@ def _plan(ctx):
         p5 = _possible_u(5, 2, 4)
         for idx in _index_sets(len(p5), 3):
             heavy.append(dict(kind="u", order=4, edges=[p5[i] for i in idx], isolated=[], weighted=False, census=True))
-    for _ in range(60 if q else 1500):  # random census (sizes 1..6, isolated, weighted, odd labels)
+    for _ in range(40 if q else 1500):  # random census (sizes 1..6, isolated, weighted, odd labels)
         g = _random_u(rng, 4, 7)
         heavy.append(dict(kind="u", order=4, census=True, **g))
-    n5, nbig, nperm = (1, 4, 10) if q else (6, 40, 30)
+    n5, nbig, nperm = (1, 3, 10) if q else (6, 40, 30)
     made5 = madebig = 0
     while made5 < n5 or madebig < nbig:  # relabelling
         g = _random_u(rng, 5, 7)
@@ -798,7 +801,7 @@ def _plan(ctx):
             continue
         for i, ch in enumerate(_chunks(maps, 15)):
             heavy.append(dict(kind="u", order=4, census=(i == 0), maps=ch, **g))
-    for _ in range(4 if q else 80):  # insertion order
+    for _ in range(3 if q else 80):  # insertion order
         g = _random_u(rng, 4, 7)
         if not _census(4, g["edges"], g["isolated"]):
             g = _random_u(rng, 4, 6)
@@ -807,28 +810,29 @@ def _plan(ctx):
         g = _random_u(rng, 4, 6)
         g["edges"] = [e for e in g["edges"] if len(e) <= 4]
         nodes = set(v for e in g["edges"] for v in e) | set(g["isolated"])
-        heavy.append(dict(kind="u", order=4, census=True, extras=[_larger_u(rng, 4, nodes, rng.randint(1, 2))], **g))
+        heavy.append(dict(kind="u", order=4, census=True, extras=[_larger_u(rng, 4, nodes, rng.randint(1, 2), g["edges"])], **g))
 
     # ---- undirected order 3 (cheap)
     idx_all = [tuple(i for i in range(11) if m >> i & 1) for m in range(2048)]
     for ch in _chunks(idx_all, 32):
-        light.append(dict(kind="xu", order=3, n=4, possible=p4, subsets=ch, seed=seed, all_maps=True,
+        # quick: the 3 adjacent transpositions (generate S4; the space is closed under relabelling and complete)
+        light.append(dict(kind="xu", order=3, n=4, possible=p4, subsets=ch, seed=seed, maps="gen" if q else "all",
                           n_shuffles=2 if q else 10, singletons=[[]]))
     if q:
         by = {}
         for m, idx in enumerate(idx_all):
             by.setdefault(1 + m % 15, []).append(idx)
         for sng, subs in sorted(by.items()):
-            light.append(dict(kind="xu", order=3, n=4, possible=p4, subsets=subs, seed=seed, all_maps=False,
+            light.append(dict(kind="xu", order=3, n=4, possible=p4, subsets=subs, seed=seed, maps="none",
                               n_shuffles=0, singletons=[[v for v in range(4) if sng >> v & 1]]))
     else:
         allsing = [[v for v in range(4) if s >> v & 1] for s in range(1, 16)]
         for ch in _chunks(idx_all, 64):
-            light.append(dict(kind="xu", order=3, n=4, possible=p4, subsets=ch, seed=seed, all_maps=False,
+            light.append(dict(kind="xu", order=3, n=4, possible=p4, subsets=ch, seed=seed, maps="none",
                               n_shuffles=0, singletons=allsing))
     p53 = _possible_u(5, 2, 3)
     for ch in _chunks(_index_sets(len(p53), 4 if q else 7), 1024):
-        light.append(dict(kind="xu", order=3, n=5, possible=p53, subsets=ch, seed=seed, all_maps=False, n_shuffles=0,
+        light.append(dict(kind="xu", order=3, n=5, possible=p53, subsets=ch, seed=seed, maps="none", n_shuffles=0,
                           singletons=[[]]))
     for _ in range(300 if q else 4000):
         g = _random_u(rng, 3, 7)
@@ -836,7 +840,7 @@ def _plan(ctx):
         base = [e for e in g["edges"] if len(e) <= 3]
         light.append(dict(kind="u", order=3, census=True, maps=_maps_for(rng, nodes, 30),
                           shuffles=_shuffles_u(rng, g["edges"], 10),
-                          extras=[_larger_u(rng, 3, set(v for e in base for v in e) | set(g["isolated"]), rng.randint(1, 3))],
+                          extras=[_larger_u(rng, 3, set(v for e in base for v in e) | set(g["isolated"]), rng.randint(1, 3), g["edges"])],
                           **g))
         # the "larger" variant is relative to the hypergraph WITH its own large hyperedges; also try it on the
         # hypergraph stripped of them (so that base has none and the variant has some)
@@ -873,7 +877,7 @@ def _plan(ctx):
             big = [e for e in g["edges"] if len(e[0]) + len(e[1]) > order]
             light.append(dict(kind="d", order=order, maps=_maps_for(rng, nodes, 30),
                               shuffles=_shuffles_d(rng, g["edges"], 10),
-                              extras=[_larger_d(rng, order, nodes, rng.randint(1, 3))], **g))
+                              extras=[_larger_d(rng, order, nodes, rng.randint(1, 3), g["edges"])], **g))
             if big:
                 light.append(dict(kind="d", order=order, edges=keep, isolated=g["isolated"], extras=[big]))
     # longest tasks first (stable), so that the pool drains evenly; the merge order is the task order, hence deterministic
@@ -927,7 +931,8 @@ def run(ctx):
                 ctx.fail(f["function"], f["clause"], f["input"], expected=f["expected"], observed=f["observed"],
                          key=f["key"], replay=f["replay"])
 
-    ctx.exhaustive_parts.append("compute_motifs order 3: all 2048 hypergraphs on 4 nodes, each under all 24 relabellings")
+    ctx.exhaustive_parts.append("compute_motifs order 3: all 2048 hypergraphs on 4 nodes, each under " +
+                                ("the 3 adjacent transpositions (generators of S4)" if ctx.quick else "all 24 relabellings"))
     ctx.exhaustive_parts.append("compute_motifs order 3: all hypergraphs on 5 nodes with hyperedges of size 2..3 and at "
                                 "most %d hyperedges" % (4 if ctx.quick else 7))
     ctx.exhaustive_parts.append("compute_motifs order 4: " + ("all hypergraphs on 4 nodes with at most 3 hyperedges"
